@@ -13,9 +13,15 @@ NROWS = 2
 META = {0: ("", "", ""), 1: ("u1", "", ""), 7: ("u1", "d1", "v1")}
 
 
+_POOL = {}
+
+
 def arr(a):
-    """The array with identity a (content encodes the identity)."""
-    return np.array([float(a), float(a) + 0.5])
+    """The array with identity a (content encodes the identity).  The SAME ndarray object is handed out every time within one
+    world, as a caller who builds several curves / files from one array would: lasio must never write into it."""
+    if a not in _POOL:
+        _POOL[a] = np.array([float(a), float(a) + 0.5])
+    return _POOL[a]
 
 
 def arr_id(x):
@@ -35,6 +41,7 @@ class World(object):
     """Two real LASFile objects plus the identity registry."""
 
     def __init__(self, read_case=None):
+        _POOL.clear()
         if read_case is None:
             self.las = [lasio.LASFile(), lasio.LASFile()]
         else:
